@@ -107,6 +107,9 @@ def _lines(draw, fmt, grain):
 def _case(draw):
     nfmt = draw(st.sampled_from([1, 1, 1, 2]))
     fmts = draw(st.lists(st.sampled_from(["kida", "umist", "leeds", "uclchem", "naunet", "krome"]), min_size=nfmt, max_size=nfmt, unique=True))
+    if "krome" in fmts and len(fmts) == 2 and draw(st.booleans()):
+        # the KROME file is read after a file that spells the electron e-: its n(idx_E) still means that species
+        fmts = [f for f in fmts if f != "krome"] + ["krome"]
     grain = draw(st.sampled_from(GRAIN_MODELS))
     files = []
     for fmt in fmts:
@@ -119,7 +122,7 @@ def _case(draw):
                 "1,H,E,,H+,E,E,NONE,NONE,exp(-32.7d0+13.5d0*lnTe)*vt_te",
                 "2,H+,E,,H,,,NONE,.LE.5.5e3,3.92d-13*invTe**0.6353d0*user_crflux",
                 "3,H,H,,H2,,,>10,NONE,1.0d-17*sqrTgas*T32**(0.5)*exp(-1.0d0*user_Av)",
-            ] + (["@common:user_late", "@var:vt_t4 = Tgas*1.0e-4", "4,H2,E,,H,H,E,NONE,NONE,5.6d-11*exp(-1.02d5*invT)*sqrTgas*user_late*vt_t4"] if draw(st.booleans()) else [])})
+            ] + (["5,H+,E,,H,,,NONE,NONE,2.0d-12*n(idx_E)/(n(idx_Hp)+n(idx_E))"] if draw(st.booleans()) else []) + (["@common:user_late", "@var:vt_t4 = Tgas*1.0e-4", "4,H2,E,,H,H,E,NONE,NONE,5.6d-11*exp(-1.02d5*invT)*sqrTgas*user_late*vt_t4"] if draw(st.booleans()) else [])})
         else:
             files.append({"fmt": fmt, "lines": draw(_lines(fmt, bool(grain)))})
     om_choices = [[], [], [{"target": "H2", "factor": "0.5 * nH", "deps": ["H"]}, {"target": "H", "factor": "-1.0 * nH", "deps": ["H"]}], [{"target": "H2", "factor": "1.0e-17", "deps": ["H", "H"]}]]
@@ -253,6 +256,8 @@ def check_case(case, tier):
             cls = build.classify_diag(ds[0])
             if cls == "undeclared:stick" and case["grain_model"] == "hh93i" and "leeds" not in fmts:
                 cls += "/hh93i-without-leeds"
+            if cls == "undeclared:IDX_EM" and "krome" in fmts and fmts[0] != "krome" and any("n(idx_E)" in ln for f in case["files"] if f["fmt"] == "krome" for ln in f["lines"]):
+                cls += "/krome-abundance-reference-after-a-file-spelling-e-"
             failures.append((f"closure/{cls}", f"{'+'.join(fmts)} grain={case['grain_model'] or 'none'} {method}: {fname}: {ds[0].split(': ', 1)[-1][:300]}"))
     sample = {"formats": fmts, "grain_model": case["grain_model"], "method": method, "shielding": case["shielding"], "cooling": case["cooling"], "n_lines": sum(len(f["lines"]) for f in case["files"])}
     return CaseResult(failures, nontrivial, labels, sample=sample, extra={"translation_units_with_non_name_diagnostics": other})
